@@ -4,4 +4,7 @@ CONSTANTS
   Mems = {0, 1, 2, 3}
   ShardN = 1
   ShardK = 0
+  KindNames = {"free", "lo", "hi", "box", "fix"}
+  XSet = {0, 1, 2, 3}
+  GSel = "full"
 INVARIANT DesignClaimsHold
